@@ -365,5 +365,8 @@ theorem build_dead (p : Prog) : ∀ (B B' : BState) (top : Scope) (rest : List S
               obtain ⟨w7, f7, k7, l7⟩ := ihk _ B' top rest h w5 s6 d6
               have hlt : top.id ≤ B.nextId := Nat.le_of_lt (hw.scopes top (by rw [hsc]; exact List.mem_cons_self)).id
               exact ⟨w7, f5.trans f7, (k5.weaken hlt).trans k7, by omega⟩
+  | istmt s k _ =>
+    intro B B' top rest h hw hsc hd
+    simp [build] at h
 
 end Gatery.C05
